@@ -80,6 +80,16 @@ fixed("C15","914b4a3","pin:mirror_register_right","'Y < a[Y]' versus 'a[Y] > Y' 
 
 fixed("C01","50c7af4","pin:switch_computed_case0","switch on a computed value: 'case 0' after another case tested the flags of the previous CMP")
 
+fixed("C01","92d89a1","pin:y_self_assign_flags","'Y = Y;' emits nothing but recorded that the flags describe Y: a following 'switch (Y) { case 0:' branched on stale flags")
+fixed("C01","1be9267","pin:flags_after_16bit_compare","a 16-bit comparison left the previous flag knowledge in place: 'Y = 7; if (s < t || Y)' tested the SBC's flags as Y's")
+fixed("C02","bb38020","pin:removed_lda_flags","the peephole pass recorded 'flags describe A' for an LDA it had just removed and then removed a second load whose flags a branch consumed")
+
+fixed("C06","da079e1","C06:include_without_final_newline","a header whose last line has no newline was glued to the line after the #include: later diagnostics of the including file were one line early")
+
+fixed("C16","b26eece","pin:huge_array_size","'short t[2147483647];' overflowed the address arithmetic of the instruction emitter (attempt to add with overflow)")
+
+fixed("C09","118e5f7","pin:macro_name_in_character_constant","with '#define a 5' the character constant 'a' was turned into '5' by macro substitution")
+
 # ---------------- recorded, not repaired (each has a pinned witness in harness/src/pins.rs and a
 # generator rule that keeps the random pools out of the family)
 C01=[
@@ -119,6 +129,7 @@ known("C08","pin:macro_argument_nesting_limit","a macro argument that (after exp
 known("C08","pin:paste_with_non_parameter","'#define M(a) a##_t': the template '$a_t' names a capture group that does not exist, the argument is dropped")
 known("C10","pin:calc_nested_ternary_middle","the constant calculator encodes ?: as two binary operators with a magic 'not taken' value: a bare ?: as middle operand ('0 ? 1 ? 5 : 6 : 7') yields 6 instead of 7")
 known("C11","pin:macro_call_across_lines","a function-like macro call whose '(' or arguments continue on the next line is never expanded (macros are matched line by line)")
+known("C11","pin:comment_glues_tokens","a comment is removed without leaving a blank: 'unsigned/**/char a;' becomes 'unsignedchar a;' (the repair, one pushed blank, changes the exact text two existing preprocessor tests assert)")
 known("C11","pin:blank_after_hash","'# define N 3' (white space or a comment between '#' and the directive name) is an unrecognised directive")
 
 json.dump({"comment":"generated by tools/mk_known.py; checks read it, never write it","findings":K}, open('/verif/known_findings.json','w'), indent=1)
